@@ -234,6 +234,28 @@ Theorem C08_write_ports_compose : forall A c, cycle_ok c ->
 Proof. exact write_ports_compose. Qed.
 Print Assumptions C08_write_ports_compose.
 
+(* ---- a write port described under conditional_assignment (conditional._finalize) ---- *)
+
+(* the select chains over (enable, addr, data) yield exactly the taken branch's write, with
+   that branch's own enable; no branch taken = nothing written; a taken EnabledWrite branch
+   with enable 0 is a no-op *)
+Theorem C08_conditional_port_is_taken_branch : forall pre w post,
+  Forall (fun pw => fst pw = false) pre -> Forall (fun pw => fst pw = false) post ->
+  cond_port (pre ++ (true, w) :: post) = w.
+Proof. exact cond_port_taken. Qed.
+Print Assumptions C08_conditional_port_is_taken_branch.
+
+Theorem C08_conditional_port_no_branch : forall brs,
+  Forall (fun pw => fst pw = false) brs -> enabled (cond_port brs) = false.
+Proof. exact cond_port_none. Qed.
+Print Assumptions C08_conditional_port_no_branch.
+
+Theorem C08_conditional_disabled_branch_noop : forall pre w post A,
+  Forall (fun pw => fst pw = false) pre -> Forall (fun pw => fst pw = false) post ->
+  w_en w = 0 -> forall a, arr_write A (cond_port (pre ++ (true, w) :: post)) a = A a.
+Proof. exact cond_port_disabled_branch. Qed.
+Print Assumptions C08_conditional_disabled_branch_noop.
+
 (* ---- translated fragments (re-proved against the source text on every run) -------- *)
 
 (* `if write_enable:` in Simulation._mem_update is "enable is non-zero" *)
